@@ -56,7 +56,15 @@ Variant(pa, pb) ==
      tr |-> << <<Tr("a", 0, 2), Tr("b", 0, 3)>>, <<Tr("", pa, 5), Tr("", 4 - pa, 4)>>,
                <<Tr("", pb, 5), Tr("", 4 - pb, 4)>>, <<Tr("", 1, 4)>>, <<Tr("", 1, 5)>> >>, final |-> <<5>>]
 
+\* player states that pruning leaves without any action (their reachability strategy lists every
+\* action, their final strategy is empty): 2 is a dead Player 1 state, 3 a dead Player 2 state
+DeadPlayers ==
+    [n |-> 6, owner |-> <<PR, P1, P2, PR, PR, PR>>, reward |-> <<1, 2, 0, 3, 0, 0>>,
+     tr |-> << <<Tr("", 1, 2), Tr("", 1, 3), Tr("", 2, 4)>>, <<Tr("c", 0, 5), Tr("d", 0, 5)>>, <<Tr("u", 0, 2)>>,
+               <<Tr("", 1, 6)>>, <<Tr("", 1, 5)>>, <<Tr("", 1, 6)>> >>, final |-> <<6>>]
+
 Pool == << [kind |-> "ok",        tg |-> Tagged(Simple)],
+           [kind |-> "okdead",    tg |-> Tagged(DeadPlayers)],
            [kind |-> "ok",        tg |-> Tagged(Orphan)],
            [kind |-> "ok",        tg |-> Tiny13b],
            [kind |-> "ok",        tg |-> Tagged(TwinA)],
@@ -113,7 +121,9 @@ Slow2000 == [n |-> 3, owner |-> <<PR, PR, PR>>, reward |-> <<1, 0, 0>>,
              tr |-> << <<Tr("", 1998, 1), Tr("", 1, 2), Tr("", 1, 3)>>, <<Tr("", 1, 2)>>, <<Tr("", 1, 3)>> >>, final |-> <<3>>]
 Scale == { << [name |-> "slow_2000", kind |-> "ok", tg |-> Tagged(Slow2000)],
               [name |-> "fan_1200", kind |-> "ok", tg |-> Tagged(Fan(1200))],
-              [name |-> "tiny", kind |-> "ok", tg |-> Tiny13b] >> }
+              [name |-> "tiny", kind |-> "ok", tg |-> Tiny13b] >>,
+           << [name |-> "dead_players", kind |-> "okdead", tg |-> Tagged(DeadPlayers)],
+              [name |-> "orphan_1", kind |-> "ok", tg |-> Tagged(Orphan)] >> }
 
 BatchCases ==
     LET base == (IF Family = "all" THEN AllDicts ELSE RandomSubset(K, AllDicts)) \cup Twins \cup OwnFlag \cup Scale
